@@ -84,6 +84,17 @@ def run(tier):
                                             files=[{"name": T(fname), "text": T(ftext)}], tag={"k": "argfile-thread"}))
                 for kind, words in arggen.mutations(g, cfg, line)[:3]:
                     acts.append(eval_action(words, tag={"k": "mut", "m": kind}))
+            # every fourth thread (the third one of each batch first) also prints the usage of its handler, through the help argument and
+            # through the stream operator, between its evaluations (printing the usage asks the process-wide Groups object whether the
+            # handler is evaluated by argument groups)
+            if t % 4 == 2 and not any(a["kind"] in ("sub", "argfile") or a["pos"] for a in cfg["args"]):
+                for a in cfg["args"]:
+                    a["hidden"] = g.r.random() < 0.2; a["repl"] = []; a["printdef"] = "dflt"; a["nodesc"] = False
+                    if a["s"] == ord("h"):
+                        a["s"] = ord("H")
+                cfg.update({"usagehidden": g.r.random() < 0.4, "usagedepr": False, "usageshort": False, "usagelong": False, "help": True})
+                ua = [{"n": "Usage", "via": "help", "argv": [T("-h")]}, {"n": "Usage", "via": "stream", "argv": []}, {"n": "Usage", "via": "help", "argv": [T("--help")]}]
+                acts = [x for k, act in enumerate(acts) for x in ([act] + ([ua[k % 3]] if k % 3 == 0 else []))] + [ua[0]]
             blocks.append((cfg, acts))
         script = os.path.join(c.wd, "threads_%d.ndjson" % idx)
         write_cases(script, blocks)
